@@ -63,9 +63,9 @@ K_PEG = [
     ('k_peg', 'peg_rep_1_2_skip', 'bounded', 'q', 'a{1,2} with skip; symbolic input <=5 chars; unwind 7'),
 ]
 
-TECH = 'contract-based deductive verification: Verus on functions extracted mechanically from /repo each run (trait contracts over a PEG denotation), Kani function contracts / loop-free harnesses, labelled Kani-bounded stand-ins'
-NOTE_COMMON = ('Trusts Verus/Z3, Kani/CBMC, the extractor and rewrite table R1-R6 (diff emitted per run; R1 erases the error tracker), '
-               'the model of pest::Stack (checked against the real type by Kani within a bound), vstd specs. '
+TECH = 'contract-based deductive verification: Verus on functions extracted mechanically from /repo each run (trait contracts over a PEG denotation), Kani function contracts / loop-free (complete) harnesses; guards on every run: expected-obligation lists, shape profiles, a vacuity pass; bounded native exhaustive enumerations and Kani-bounded harnesses are labelled stand-ins and never counted as proved'
+NOTE_COMMON = ('Trusts Verus/Z3, Kani/CBMC, the extractor and rewrite table R1-R10 (diff emitted per run; R1 erases the error tracker, R9 turns array::from_fn into its loop, R10 instantiates a generic iterator / range parameter per call-site type), '
+               'the model of pest::Stack (cross-checked against the real type by a bounded native enumeration; false for nested snapshots: known finding D1), vstd specs. '
                'Generator/derive crates are outside the verified set. ')
 
 PROPS = {
@@ -357,7 +357,7 @@ PROPS = {
 COMMON_TRUSTED = [
     'Verus 0.2026.09.13 + Z3 (SMT encoding, vstd specifications of core types)',
     'Kani 0.68 / CBMC 6.11 (for the harnesses listed under kani_*)',
-    'extractor /verif/lib/rsx.py + vgen.py and the rewrite table R1-R6 (diff written to the run directory on every run)',
+    'extractor /verif/lib/rsx.py + vgen.py and the rewrite table R1-R10 (diff written to the run directory on every run)',
     'rustc macro expansion (-Zunpretty=expanded) for macro-defined items',
     'machine integers are modelled exactly by both tools (no mathematical-integer abstraction of executable code)',
 ]
